@@ -31,7 +31,7 @@ def run(tier, seed):
     return finish(PROP, tier, seed, "model_checking", acc, cov,
                   ["relation predicates of mc/contracts.py (written from the documentation)",
                    "interpreted mode executes the same Python source numba compiles (bound to compiled mode by C15)"],
-                  t0, vacuity={"pruned_types": 15, "failed_types": 15})
+                  t0, vacuity={"pruned_types": 12, "failed_types": 12})
 
 
 def replay(entry):
